@@ -210,6 +210,8 @@ def apply_op(sim, mon, op, ctx=None):
                 daemon._real["builtins.open"](q, "wb").write(b"planted by the harness")
         return None
     if kind == "tools":
+        if "hang" in op[2].values():
+            w.config.config["daemon"]["pull_timeout_base"] = 0.25  # a stalled transport is killed after a quarter of a second
         sim.set_tools(op[1], **op[2])
         return None
     raise ValueError(op)
